@@ -476,9 +476,9 @@ def describe(case):
 
 SUITES = [
     Suite("grid", gen_grid, run_history, HDR, coq_grid, oracle, shrink, nontrivial,
-          {"quick": 1200, "thorough": 40000}, worker_init=worker_init, shard=150, describe=describe),
+          {"quick": 2000, "thorough": 40000}, worker_init=worker_init, shard=150, describe=describe),
     Suite("generic", gen_generic, run_history, None, None, oracle, shrink, nontrivial,
-          {"quick": 400, "thorough": 20000}, worker_init=worker_init, describe=describe),
+          {"quick": 700, "thorough": 20000}, worker_init=worker_init, describe=describe),
 ]
 
 LEVEL_TEXT = ("Machine-checked proof (Coq) about an executable model of Light's priority stack, colour interpolation, "
